@@ -42,6 +42,7 @@ type Finding struct {
 	Decision []Decision
 	Trace    []string
 	Sample   string
+	Key      string
 }
 
 type stats struct {
@@ -110,6 +111,7 @@ type Exec struct {
 	lockEdges map[string]bool
 	userState map[string]Value
 	lockWaiters []*G
+	findKey string
 	initTopInstr ssa.Instruction
 	initTopIP int
 	initTopBlock *ssa.BasicBlock
@@ -161,7 +163,8 @@ func (e *Exec) event(kind, msg string) {
 }
 
 func (e *Exec) addFinding(kind, label, msg string) {
-	fd := Finding{Kind: kind, Label: label, Msg: msg, Harness: e.harness}
+	fd := Finding{Kind: kind, Label: label, Msg: msg, Harness: e.harness, Key: e.findKey}
+	e.findKey = ""
 	// model of the current path condition
 	r := e.sol.Check(nil)
 	if r == RSat {
@@ -228,6 +231,7 @@ func (e *Exec) branch(c *Term, why string) bool {
 	}
 	e.stats.branches++
 	tc := e.tc
+	e.sol.label = "branch:" + why + e.whereAmI()
 	if d := e.nextDecision(); d != nil {
 		taken := d.N == 1
 		cc := c
@@ -490,6 +494,11 @@ func explore(prog *Program, cfg *Config, harness string) *HarnessResult {
 			defer wg.Done()
 			sol := NewSolver(cfg.SolverBin, cfg.TimeoutMs)
 			sol.keepLog = cfg.KeepSMT
+			if cfg.SolverBin == "z3-new" {
+				sol.alt = "z3"
+			} else if cfg.SolverBin == "z3" {
+				sol.alt = "z3-new"
+			}
 			defer sol.Close()
 			for {
 				mu.Lock()
@@ -528,6 +537,9 @@ func explore(prog *Program, cfg *Config, harness string) *HarnessResult {
 				}
 				for _, f := range r.Findings {
 					key := f.Kind + "|" + f.Label + "|" + f.Msg
+					if f.Key != "" {
+						key = f.Kind + "|" + f.Key
+					}
 					if !findSeen[key] {
 						findSeen[key] = true
 						hr.Findings = append(hr.Findings, f)
